@@ -136,7 +136,7 @@ def smchart_guards(ctx: Ctx) -> None:
             ctx.observe("R-TABLE", ci, f"SMChart.{m} is inherited", "outside the property's operation set")
 
 
-def equality(ctx: Ctx) -> None:
+def equality(ctx: Ctx, sm_chart: bool = True) -> None:
     """C18.5: equality reads exactly the mapping's content (and the charts)."""
     p = ctx.p
     from .tables import function_decs, judge, sums_of, terminal_text
@@ -153,11 +153,12 @@ def equality(ctx: Ctx) -> None:
     decs = function_decs(sums_of(ctx, ne, bool_returns=True))
     judge(ctx, "R-TABLE", ne, "!= is the negation of ==", decs, [f"{s2}.__eq__({o2})"], lambda a: "return False" if a[f"{s2}.__eq__({o2})"] else "return True",
           equiv={f"{s2} == {o2}": (f"{s2}.__eq__({o2})", True)})
-    ce = p.func("simfile.sm:SMChart.__eq__")
-    s, o = ce.param_names()
-    desc = p.descriptors(p.cls("simfile.sm.SMChart"))
-    fields = [a for a, d in desc.items() if d.key in p.const("simfile.sm", "SM_CHART_PROPERTIES")]
-    predicate_table(ce, [f"type({s}) is type({o})"] + [f"{s}.{a} == {o}.{a}" for a in fields], "SM chart equality = same type and the six fields equal")
+    if sm_chart:
+        ce = p.func("simfile.sm:SMChart.__eq__")
+        s, o = ce.param_names()
+        desc = p.descriptors(p.cls("simfile.sm.SMChart"))
+        fields = [a for a, d in desc.items() if d.key in p.const("simfile.sm", "SM_CHART_PROPERTIES")]
+        predicate_table(ce, [f"type({s}) is type({o})"] + [f"{s}.{a} == {o}.{a}" for a in fields], "SM chart equality = same type and the six fields equal")
     for cls in ("simfile.ssc.SSCChart", "simfile.ssc.SSCSimfile", "simfile.sm.SMSimfile"):
         ci = p.cls(cls)
         ctx.expect("R-TABLE", ci, f"{ci.name} does not override mapping access", not ({"__getitem__", "__setitem__", "__delitem__", "get", "__contains__", "__iter__", "keys", "items", "values", "__eq__"} & set(ci.methods)),
